@@ -4,3 +4,6 @@ import Lace.Basic.Fmt
 import Lace.Spec.ISA
 import Lace.Model.VM
 import Lace.Props.C02
+import Lace.Spec.CmdGrammar
+import Lace.Model.Cmd.Reader
+import Lace.Props.C14
